@@ -1885,6 +1885,17 @@ def gen_vfk(rng):
     vf = frames.pop()
     parent_frames = list(frames)
     parent_slot = st["slot"]
+    if rng.random() < 0.25:
+        # a traced signal handler runs in the parent between the entry hook of vfork and the system call
+        tags.add("vfk:handler-before-syscall")
+        st["slot"] -= 8
+        push(False)
+        if rng.random() < 0.5:
+            push(True, rng.random() < 0.5)
+            ret()
+        ret()
+        frames[:] = parent_frames
+        st["slot"] = parent_slot
     lines.append("VCHILD")
     mops.append(("SChild", len(lines) - 1, vf[1]))
     floor = len(frames)
